@@ -82,7 +82,8 @@ def _rand_model(rng):
                                           dict(sdk=21), dict(lang="es", region="419"), dict(color_mode=1), dict(color_mode=8),
                                           dict(layout2=1), dict(mcc=310), dict(orientation=2), dict(keyboard=3), dict(width=320),
                                           dict(layout=2), dict(ui_mode=0x21), dict(smallest=600), dict(width_dp=720),
-                                          dict(lang="de", color_mode=4)], rng.randint(0, 3))
+                                          dict(lang="de", color_mode=4), dict(lang="sr", script=b"Latn"), dict(lang="sr", script=b"Cyrl"),
+                                          dict(lang="ca", region="ES", variant=b"valencia")], rng.randint(0, 3))
             for cfg in cfgs:
                 entries = {}
                 for i in range(n):
@@ -118,7 +119,8 @@ FIELDS = ("density", "sdk", "mcc", "orientation", "keyboard", "width", "layout",
 
 
 def _cfg_key(cfg):
-    return (cfg.get("lang", ""), cfg.get("region", "")) + tuple(cfg.get(f, 0) for f in FIELDS)
+    return (cfg.get("lang", ""), cfg.get("region", "")) + tuple(cfg.get(f, 0) for f in FIELDS) + \
+        ((cfg.get("script", b"") + b"\0" * 4)[:4], (cfg.get("variant", b"") + b"\0" * 8)[:8])
 
 
 def _got_cfg_key(c):
@@ -128,7 +130,7 @@ def _got_cfg_key(c):
         lang = region = ""
     return (lang, region, c.screenType >> 16, c.version & 0xFFFF, c.imsi & 0xFFFF, c.screenType & 0xFF, c.input & 0xFF,
             c.screenSize & 0xFFFF, c.screenConfig & 0xFF, (c.screenConfig >> 8) & 0xFF, c.screenConfig >> 16, c.screenSizeDp & 0xFFFF,
-            c.screenConfig2 & 0xFF, (c.screenConfig2 >> 8) & 0xFF)
+            c.screenConfig2 & 0xFF, (c.screenConfig2 >> 8) & 0xFF, bytes(c.localeScript), bytes(c.localeVariant))
 
 
 @unit("C28", covers=[(AXML, "ARSCParser.__init__"), (AXML, "ARSCParser._analyse"), (AXML, "ARSCParser.get_res_configs"),
@@ -221,9 +223,10 @@ def config_identity(U, size):
         return
     l1 = list(b1.items) if hasattr(b1, "items") else list(b1)
     l2 = list(b2.items) if hasattr(b2, "items") else list(b2)
-    # the words compared: imsi, locale, screenType, input, screenSize, version, screenConfig, screenSizeDp (offsets 0..31) and
-    # screenConfig2 (offset 44); localeScript/localeVariant (32..43) are NOT part of androguard's key: recorded limitation
-    offs = list(range(0, 4 * min(words, 8))) + (list(range(44, 48)) if words == 9 else [])
+    # the words compared: imsi, locale, screenType, input, screenSize, version, screenConfig, screenSizeDp (offsets 0..31),
+    # localeScript (32..35), localeVariant (36..43) and screenConfig2 (44..47), as far as the structure size carries them
+    offs = list(range(0, 4 * min(words, 8))) + (list(range(32, 36)) if size >= 40 else []) + (list(range(36, 44)) if size >= 44 else []) \
+        + (list(range(44, 48)) if words == 9 else [])
     same = And(*[l1[i] == l2[i] for i in offs])
     eq = o1.value == o2.value
     U.ensures("equal configuration words <=> same configuration key", Eq(bool(eq) if not isinstance(eq, bool) else eq, bool(same) if not isinstance(same, bool) else same))
